@@ -375,9 +375,9 @@ def exh_blocks(tier):
 
 
 # --------------------------------------------------------------------------
-NCH_EXH = {"quick": 24, "thorough": 48}
-NCH_RND = {"quick": 24, "thorough": 48}
-N_RND = {"quick": 260, "thorough": 6000}
+NCH_EXH = {"quick": 16, "thorough": 32}
+NCH_RND = {"quick": 16, "thorough": 32}
+N_RND = {"quick": 390, "thorough": 5000}
 FAMILIES = ["three", "quarter", "grid8", "real", "sparse", "three", "grid8", "real"]
 
 
